@@ -1,5 +1,5 @@
 (* C08 — bridging facts for the composition with the lexer (C03):
-   for a well-formed AST (wfd: names valid, numbers in literal syntax) and a whitespace indent prefix,
+   for a well-formed AST (pwfd: names valid, numbers in literal syntax) and a whitespace indent prefix,
    every token of the serializer's output is lexically well-formed (ptok_wf) and every separator text
    consists of ignored characters only (space, tab, line feed, comma). *)
 From ApolloVerif Require Import Base.Chars Ast.Ast Ast.PrintState Ast.PrintString Ast.Print
@@ -99,9 +99,9 @@ Lemma in_map_good {A} (G : A -> pi_layout) p xs :
   forall it, In it (map G xs) -> forall l, pi_good (it p l) = true.
 Proof. intros H it Hin. apply in_map_iff in Hin as [x [<- Hx]]. now apply H. Qed.
 
-Lemma good_type t : wf_ty t = true -> pi_good (pi_type t) = true.
+Lemma good_type t : pwf_ty t = true -> pi_good (pi_type t) = true.
 Proof.
-  induction t as [n|n|t IH|t IH]; cbn [wf_ty pi_type]; intros H.
+  induction t as [n|n|t IH|t IH]; cbn [pwf_ty pi_type]; intros H.
   - good_go.
   - good_go.
   - rewrite !good_app, IH by exact H. reflexivity.
@@ -119,10 +119,10 @@ Proof.
 Qed.
 #[export] Hint Resolve good_string good_description : good.
 
-Lemma good_value v : wf_value v = true -> forall p l, ws_prefix p = true -> pi_good (pi_value v p l) = true.
+Lemma good_value v : pwf_value v = true -> forall p l, ws_prefix p = true -> pi_good (pi_value v p l) = true.
 Proof.
   induction v as [| n | n | s | s | s | b | vs IH | fs IH] using value_ind2;
-    cbn [wf_value pi_value]; intros H p l Hp; try solve [good_go].
+    cbn [pwf_value pi_value]; intros H p l Hp; try solve [good_go].
   - destruct b; reflexivity.
   - apply good_comma; [exact Hp|]. apply in_map_good. intros x Hx l'.
     rewrite Forall_forall in IH. apply IH; [exact Hx| |exact Hp].
@@ -133,35 +133,35 @@ Proof.
     good_go.
 Qed.
 
-Lemma good_argument a p l : wf_argument a = true -> ws_prefix p = true -> pi_good (pi_argument a p l) = true.
+Lemma good_argument a p l : pwf_argument a = true -> ws_prefix p = true -> pi_good (pi_argument a p l) = true.
 Proof.
-  unfold wf_argument, pi_argument. intros H Hp. wf_split.
+  unfold pwf_argument, pi_argument. intros H Hp. wf_split.
   pose proof (good_value (snd a) ltac:(assumption) p l Hp). good_go.
 Qed.
 
 Lemma good_arguments args p l :
-  forallb wf_argument args = true -> pi_good (pi_arguments args p l) = true.
+  forallb pwf_argument args = true -> pi_good (pi_arguments args p l) = true.
 Proof.
   intros H. unfold pi_arguments. destruct args as [|a args]; [reflexivity|].
   apply good_comma; [reflexivity|]. apply in_map_good. intros x Hx l'.
   apply good_argument; [|reflexivity]. rewrite forallb_forall in H. now apply H.
 Qed.
 
-Lemma good_directive d p l : wf_directive d = true -> pi_good (pi_directive d p l) = true.
+Lemma good_directive d p l : pwf_directive d = true -> pi_good (pi_directive d p l) = true.
 Proof.
-  unfold wf_directive, pi_directive. intros H. wf_split.
+  unfold pwf_directive, pi_directive. intros H. wf_split.
   pose proof (good_arguments (d_args d) p l ltac:(assumption)). good_go.
 Qed.
 
-Lemma good_directives ds p l : wf_directives ds = true -> pi_good (pi_directives ds p l) = true.
+Lemma good_directives ds p l : pwf_directives ds = true -> pi_good (pi_directives ds p l) = true.
 Proof.
-  unfold wf_directives, pi_directives. intros H. apply good_flat_map. intros d Hd.
+  unfold pwf_directives, pi_directives. intros H. apply good_flat_map. intros d Hd.
   rewrite forallb_forall in H. pose proof (good_directive d p l (H d Hd)). good_go.
 Qed.
 #[export] Hint Resolve good_directives good_arguments : good.
 
 Lemma good_default (dv : option value) p l :
-  wf_opt_value dv = true -> ws_prefix p = true ->
+  pwf_opt_value dv = true -> ws_prefix p = true ->
   pi_good (match dv with Some d => [pi_s; pi_p PEq; pi_s] ++ pi_value d p l | None => [] end) = true.
 Proof.
   intros H Hp. destruct dv as [d|]; [|reflexivity].
@@ -169,28 +169,28 @@ Proof.
 Qed.
 #[export] Hint Resolve good_default : good.
 
-Lemma good_vardef v p l : wf_vardef v = true -> ws_prefix p = true -> pi_good (pi_vardef v p l) = true.
-Proof. unfold wf_vardef, pi_vardef. intros H Hp. wf_split. good_go. Qed.
+Lemma good_vardef v p l : pwf_vardef v = true -> ws_prefix p = true -> pi_good (pi_vardef v p l) = true.
+Proof. unfold pwf_vardef, pi_vardef. intros H Hp. wf_split. good_go. Qed.
 
-Lemma good_selection s : wf_selection s = true -> forall p l, ws_prefix p = true -> pi_good (pi_selection s p l) = true.
+Lemma good_selection s : pwf_selection s = true -> forall p l, ws_prefix p = true -> pi_good (pi_selection s p l) = true.
 Proof.
   induction s as [a n args dirs sels IH | n dirs | c dirs sels IH] using selection_ind2;
-    cbn [wf_selection pi_selection]; intros H p l Hp; wf_split.
+    cbn [pwf_selection pi_selection]; intros H p l Hp; wf_split.
   - assert (Hc : pi_good (pi_curly (map pi_selection sels) p l) = true).
     { apply good_curly; [exact Hp|]. apply in_map_good. intros x Hx l'.
       rewrite Forall_forall in IH. apply IH; [exact Hx| |exact Hp].
-      match goal with Hs : forallb wf_selection sels = true |- _ => rewrite forallb_forall in Hs; now apply Hs end. }
-    destruct a as [a|]; destruct sels; cbn [wf_opt_name] in *; good_go.
+      match goal with Hs : forallb pwf_selection sels = true |- _ => rewrite forallb_forall in Hs; now apply Hs end. }
+    destruct a as [a|]; destruct sels; cbn [pwf_opt_name] in *; good_go.
   - good_go.
   - assert (Hc : pi_good (pi_curly (map pi_selection sels) p l) = true).
     { apply good_curly; [exact Hp|]. apply in_map_good. intros x Hx l'.
       rewrite Forall_forall in IH. apply IH; [exact Hx| |exact Hp].
-      match goal with Hs : forallb wf_selection sels = true |- _ => rewrite forallb_forall in Hs; now apply Hs end. }
-    destruct c as [c|]; cbn [wf_opt_name] in *; good_go.
+      match goal with Hs : forallb pwf_selection sels = true |- _ => rewrite forallb_forall in Hs; now apply Hs end. }
+    destruct c as [c|]; cbn [pwf_opt_name] in *; good_go.
 Qed.
 
 Lemma good_selset sels p l :
-  forallb wf_selection sels = true -> ws_prefix p = true ->
+  forallb pwf_selection sels = true -> ws_prefix p = true ->
   pi_good (pi_curly (map pi_selection sels) p l) = true.
 Proof.
   intros H Hp. apply good_curly; [exact Hp|]. apply in_map_good. intros x Hx l'.
@@ -214,23 +214,23 @@ Proof.
 Qed.
 
 Lemma good_operation e op name vars dirs sels p l :
-  wf_definition (DOperation op name vars dirs sels) = true -> ws_prefix p = true ->
+  pwf_definition (DOperation op name vars dirs sels) = true -> ws_prefix p = true ->
   pi_good (pi_operation e op name vars dirs sels p l) = true.
 Proof.
-  cbn [wf_definition]. intros H Hp. wf_split. unfold pi_operation.
+  cbn [pwf_definition]. intros H Hp. wf_split. unfold pi_operation.
   assert (Hv : pi_good (pi_comma PLParen PRParen (map pi_vardef vars) None l) = true).
-  { apply (good_single_comma pi_vardef wf_vardef); [|assumption].
+  { apply (good_single_comma pi_vardef pwf_vardef); [|assumption].
     intros x Hx l'. now apply good_vardef. }
   destruct (negb (pi_shorthand e op name vars dirs)); destruct name; destruct vars;
-    cbn [wf_opt_name] in *; good_go.
+    cbn [pwf_opt_name] in *; good_go.
 Qed.
 
 Lemma good_inputvaldef v p l :
-  wf_inputvaldef v = true -> ws_prefix p = true -> pi_good (pi_inputvaldef v p l) = true.
-Proof. unfold wf_inputvaldef, pi_inputvaldef. intros H Hp. wf_split. good_go. Qed.
+  pwf_inputvaldef v = true -> ws_prefix p = true -> pi_good (pi_inputvaldef v p l) = true.
+Proof. unfold pwf_inputvaldef, pi_inputvaldef. intros H Hp. wf_split. good_go. Qed.
 
 Lemma good_arguments_definition args p l :
-  forallb wf_inputvaldef args = true -> ws_prefix p = true ->
+  forallb pwf_inputvaldef args = true -> ws_prefix p = true ->
   pi_good (pi_arguments_definition args p l) = true.
 Proof.
   intros H Hp. unfold pi_arguments_definition. destruct args as [|a args]; [reflexivity|].
@@ -242,14 +242,14 @@ Proof.
 Qed.
 #[export] Hint Resolve good_arguments_definition : good.
 
-Lemma good_fielddef f p l : wf_fielddef f = true -> ws_prefix p = true -> pi_good (pi_fielddef f p l) = true.
-Proof. unfold wf_fielddef, pi_fielddef. intros H Hp. wf_split. good_go. Qed.
+Lemma good_fielddef f p l : pwf_fielddef f = true -> ws_prefix p = true -> pi_good (pi_fielddef f p l) = true.
+Proof. unfold pwf_fielddef, pi_fielddef. intros H Hp. wf_split. good_go. Qed.
 
-Lemma good_enumvaldef e p l : wf_enumvaldef e = true -> ws_prefix p = true -> pi_good (pi_enumvaldef e p l) = true.
-Proof. unfold wf_enumvaldef, pi_enumvaldef. intros H Hp. wf_split. good_go. Qed.
+Lemma good_enumvaldef e p l : pwf_enumvaldef e = true -> ws_prefix p = true -> pi_good (pi_enumvaldef e p l) = true.
+Proof. unfold pwf_enumvaldef, pi_enumvaldef. intros H Hp. wf_split. good_go. Qed.
 
-Lemma good_rootop r p l : wf_rootop r = true -> pi_good (pi_rootop r p l) = true.
-Proof. unfold wf_rootop, pi_rootop. intros H. destruct (fst r); good_go. Qed.
+Lemma good_rootop r p l : pwf_rootop r = true -> pi_good (pi_rootop r p l) = true.
+Proof. unfold pwf_rootop, pi_rootop. intros H. destruct (fst r); good_go. Qed.
 
 Lemma good_curly_map {A} (G : A -> pi_layout) (wf : A -> bool) xs p l :
   (forall x, wf x = true -> forall l, pi_good (G x p l) = true) ->
@@ -275,19 +275,19 @@ Proof.
 Qed.
 
 Lemma good_object_type_like name impls dirs fields p l :
-  is_valid_name name = true -> forallb is_valid_name impls = true -> wf_directives dirs = true ->
-  forallb wf_fielddef fields = true -> ws_prefix p = true ->
+  is_valid_name name = true -> forallb is_valid_name impls = true -> pwf_directives dirs = true ->
+  forallb pwf_fielddef fields = true -> ws_prefix p = true ->
   pi_good (pi_object_type_like name impls dirs fields p l) = true.
 Proof.
   intros Hn Hi Hd Hf Hp. unfold pi_object_type_like.
-  pose proof (good_name_list [pi_s; pi_n kw_implements; pi_s] PAmp impls eq_refl Hi).
-  pose proof (good_curly_map pi_fielddef wf_fielddef fields p l
+  pose proof (good_name_list [pi_s; pi_n apk_implements; pi_s] PAmp impls eq_refl Hi).
+  pose proof (good_curly_map pi_fielddef pwf_fielddef fields p l
                 (fun x Hx l' => good_fielddef x p l' Hx Hp) Hf Hp).
   destruct fields; good_go.
 Qed.
 
 Lemma good_union name dirs members p l :
-  is_valid_name name = true -> wf_directives dirs = true -> forallb is_valid_name members = true ->
+  is_valid_name name = true -> pwf_directives dirs = true -> forallb is_valid_name members = true ->
   pi_good (pi_union name dirs members p l) = true.
 Proof.
   intros Hn Hd Hm. unfold pi_union.
@@ -296,7 +296,7 @@ Qed.
 
 Lemma good_name_dirs_body {A} (G : A -> pi_layout) (wf : A -> bool) name dirs xs p l :
   (forall x, wf x = true -> forall l, pi_good (G x p l) = true) ->
-  is_valid_name name = true -> wf_directives dirs = true -> forallb wf xs = true ->
+  is_valid_name name = true -> pwf_directives dirs = true -> forallb wf xs = true ->
   ws_prefix p = true ->
   pi_good (pi_name_dirs_body name dirs (map G xs) p l) = true.
 Proof.
@@ -306,65 +306,65 @@ Proof.
 Qed.
 
 Lemma good_definition e d p l :
-  wf_definition d = true -> ws_prefix p = true -> pi_good (pi_definition e d p l) = true.
+  pwf_definition d = true -> ws_prefix p = true -> pi_good (pi_definition e d p l) = true.
 Proof.
   intros H Hp. destruct d; cbn [pi_definition].
   - now apply good_operation.
-  - cbn [wf_definition] in H. wf_split. unfold pi_fragment. good_go.
-  - cbn [wf_definition] in H. wf_split. unfold pi_directive_definition.
-    assert (Hl : pi_good (pi_name_list [pi_s; pi_n kw_on; pi_s] PPipe (map ap_dirloc_name locs)) = true).
+  - cbn [pwf_definition] in H. wf_split. unfold pi_fragment. good_go.
+  - cbn [pwf_definition] in H. wf_split. unfold pi_directive_definition.
+    assert (Hl : pi_good (pi_name_list [pi_s; pi_n apk_on; pi_s] PPipe (map ap_dirloc_name locs)) = true).
     { apply good_name_list; [reflexivity|]. apply forallb_forall. intros x Hx.
       apply in_map_iff in Hx as [y [<- _]]. apply good_dirloc_name. }
     destruct repeatable; good_go.
-  - cbn [wf_definition] in H. wf_split. unfold pi_schema_definition.
-    pose proof (good_curly_map pi_rootop wf_rootop roots p l
+  - cbn [pwf_definition] in H. wf_split. unfold pi_schema_definition.
+    pose proof (good_curly_map pi_rootop pwf_rootop roots p l
                   (fun x Hx l' => good_rootop x p l' Hx) ltac:(assumption) Hp).
     good_go.
-  - cbn [wf_definition] in H. wf_split. good_go.
-  - cbn [wf_definition] in H. wf_split.
+  - cbn [pwf_definition] in H. wf_split. good_go.
+  - cbn [pwf_definition] in H. wf_split.
     pose proof (good_object_type_like name impls dirs fields p l) as Ho. repeat (specialize (Ho ltac:(assumption))). good_go.
-  - cbn [wf_definition] in H. wf_split.
+  - cbn [pwf_definition] in H. wf_split.
     pose proof (good_object_type_like name impls dirs fields p l) as Ho. repeat (specialize (Ho ltac:(assumption))). good_go.
-  - cbn [wf_definition] in H. wf_split.
+  - cbn [pwf_definition] in H. wf_split.
     pose proof (good_union name dirs members p l) as Ho. repeat (specialize (Ho ltac:(assumption))). good_go.
-  - cbn [wf_definition] in H. wf_split.
-    pose proof (good_name_dirs_body pi_enumvaldef wf_enumvaldef name dirs values p l
+  - cbn [pwf_definition] in H. wf_split.
+    pose proof (good_name_dirs_body pi_enumvaldef pwf_enumvaldef name dirs values p l
                   (fun x Hx l' => good_enumvaldef x p l' Hx Hp)) as Ho.
     repeat (specialize (Ho ltac:(assumption))). good_go.
-  - cbn [wf_definition] in H. wf_split.
-    pose proof (good_name_dirs_body pi_inputvaldef wf_inputvaldef name dirs fields p l
+  - cbn [pwf_definition] in H. wf_split.
+    pose proof (good_name_dirs_body pi_inputvaldef pwf_inputvaldef name dirs fields p l
                   (fun x Hx l' => good_inputvaldef x p l' Hx Hp)) as Ho.
     repeat (specialize (Ho ltac:(assumption))). good_go.
-  - cbn [wf_definition] in H. wf_split.
-    pose proof (good_curly_map pi_rootop wf_rootop roots p l
+  - cbn [pwf_definition] in H. wf_split.
+    pose proof (good_curly_map pi_rootop pwf_rootop roots p l
                   (fun x Hx l' => good_rootop x p l' Hx) ltac:(assumption) Hp).
     destruct roots; good_go.
-  - cbn [wf_definition] in H. wf_split. good_go.
-  - cbn [wf_definition] in H. wf_split.
+  - cbn [pwf_definition] in H. wf_split. good_go.
+  - cbn [pwf_definition] in H. wf_split.
     pose proof (good_object_type_like name impls dirs fields p l) as Ho. repeat (specialize (Ho ltac:(assumption))). good_go.
-  - cbn [wf_definition] in H. wf_split.
+  - cbn [pwf_definition] in H. wf_split.
     pose proof (good_object_type_like name impls dirs fields p l) as Ho. repeat (specialize (Ho ltac:(assumption))). good_go.
-  - cbn [wf_definition] in H. wf_split.
+  - cbn [pwf_definition] in H. wf_split.
     pose proof (good_union name dirs members p l) as Ho. repeat (specialize (Ho ltac:(assumption))). good_go.
-  - cbn [wf_definition] in H. wf_split.
-    pose proof (good_name_dirs_body pi_enumvaldef wf_enumvaldef name dirs values p l
+  - cbn [pwf_definition] in H. wf_split.
+    pose proof (good_name_dirs_body pi_enumvaldef pwf_enumvaldef name dirs values p l
                   (fun x Hx l' => good_enumvaldef x p l' Hx Hp)) as Ho.
     repeat (specialize (Ho ltac:(assumption))). good_go.
-  - cbn [wf_definition] in H. wf_split.
-    pose proof (good_name_dirs_body pi_inputvaldef wf_inputvaldef name dirs fields p l
+  - cbn [pwf_definition] in H. wf_split.
+    pose proof (good_name_dirs_body pi_inputvaldef pwf_inputvaldef name dirs fields p l
                   (fun x Hx l' => good_inputvaldef x p l' Hx Hp)) as Ho.
     repeat (specialize (Ho ltac:(assumption))). good_go.
 Qed.
 
 Lemma good_document cfg d :
-  wfd d = true -> ws_prefix (pc_prefix cfg) = true -> pi_good (pi_document cfg d) = true.
+  pwfd d = true -> ws_prefix (pc_prefix cfg) = true -> pi_good (pi_document cfg d) = true.
 Proof.
   intros H Hp. unfold pi_document. rewrite !good_app.
   and_split; try reflexivity.
   - destruct (pc_prefix cfg) as [pr|]; [|reflexivity]. cbn [pi_good forallb pi_item_ok].
     now rewrite (indent_ignored pr (pc_level cfg) Hp).
   - unfold pi_top_level. destruct d as [|first rest]; [reflexivity|].
-    unfold wfd in H. cbn [forallb] in H. wf_split. rewrite !good_app.
+    unfold pwfd in H. cbn [forallb] in H. wf_split. rewrite !good_app.
     and_split.
     + now apply good_definition.
     + apply good_flat_map. intros x Hx. rewrite !good_app.
@@ -372,7 +372,7 @@ Proof.
       * now apply good_if_newlines_sep.
       * now apply good_nl.
       * apply good_definition; [|exact Hp].
-        match goal with Hr : forallb wf_definition rest = true |- _ =>
+        match goal with Hr : forallb pwf_definition rest = true |- _ =>
           rewrite forallb_forall in Hr; now apply Hr end.
     + now apply good_if_newlines_sep.
 Qed.
@@ -393,6 +393,6 @@ Proof.
 Qed.
 
 Theorem tokens_wf cfg d :
-  wfd d = true -> ws_prefix (pc_prefix cfg) = true ->
+  pwfd d = true -> ws_prefix (pc_prefix cfg) = true ->
   forallb ptoken_ok (ptokens cfg d) = true.
 Proof. intros H Hp. unfold ptokens. apply attach_good; [reflexivity|]. now apply good_document. Qed.
